@@ -25,14 +25,16 @@ KINDS = ['file', 'tree', 'ldir']
 
 
 def dimensions(tier):
-    return {'kinds': 3, 'routes': 9, 'errno_table_size': sum(len(v) for v in faults.ERRNOS.values())}
+    return {'kinds': 3, 'routes': 10, 'errno_table_size': sum(len(v) for v in faults.ERRNOS.values())}
 
 
 def scenarios(tier):
     # + a directory that contains the only candidate trash directory: rename(2) answers EINVAL without any injected fault
     return [{'kind': k, 'route': r} for r in ROUTES for k in KINDS] + [{'kind': 'tree', 'route': 'inside-entry'}] + [
         # two arguments in one run: whatever happens to the second must not touch what the first one became
-        {'kind': k, 'route': r, 'two': True} for r in ('home-warm', 'alt') for k in ('file', 'tree')]
+        {'kind': k, 'route': r, 'two': True} for r in ('home-warm', 'alt') for k in ('file', 'tree')] + [
+        # 100 names are taken and two arguments with that very name come in one run: each needs a random suffix of its own
+        {'kind': 'file', 'route': 'home-hundred', 'two': True}]
 
 
 def level2_filter(tier, scn, op, errno, mut):
@@ -51,7 +53,7 @@ def _layout(s):
     if route == 'inside-entry':
         return '/home/u/w', '/home/u/w/x/T'
     B = '/home/u/w' if route.startswith('home') else '/mnt/v1/w'
-    td = {'home-cold': scen.HOME_TRASH, 'home-warm': scen.HOME_TRASH, 'top': '/mnt/v1/.Trash/0', 'alt': '/mnt/v1/.Trash-0', 'fallback': scen.HOME_TRASH, 'home-info-file': scen.HOME_TRASH, 'home-info-missing': scen.HOME_TRASH, 'alt+fallback': '/mnt/v1/.Trash-0'}[route]
+    td = {'home-hundred': scen.HOME_TRASH, 'home-cold': scen.HOME_TRASH, 'home-warm': scen.HOME_TRASH, 'top': '/mnt/v1/.Trash/0', 'alt': '/mnt/v1/.Trash-0', 'fallback': scen.HOME_TRASH, 'home-info-file': scen.HOME_TRASH, 'home-info-missing': scen.HOME_TRASH, 'alt+fallback': '/mnt/v1/.Trash-0'}[route]
     return B, td
 
 
@@ -60,7 +62,11 @@ def make_world(s):
     W = scen.base_world(mounts=['/', '/mnt/v1'], cwd=B)
     W.dir(B)
     scen.add_entry(W, B + '/x', s['kind'])
-    if s.get('two'):
+    if s['route'] == 'home-hundred':
+        for i in range(100):
+            scen.add_trashed(W, td, 'x' if i == 0 else 'x_%d' % i, B + '/x', '2017-01-01T00:00:00', tag=str(i))
+        scen.add_entry(W, B + '/pre/x', 'file', tag=' (first argument)')
+    elif s.get('two'):
         scen.add_entry(W, B + '/pre', 'file')
     if s['route'] == 'inside-entry':
         scen.add_trash_dir(W, td)
@@ -86,7 +92,9 @@ def command(s):
         env['TRASH_ENABLE_HOME_FALLBACK'] = '1'
     if s['route'] == 'inside-entry':
         argv += ['--trash-dir', 'x/T']
-    if s.get('two'):
+    if s['route'] == 'home-hundred':
+        argv.append('pre/x')
+    elif s.get('two'):
         argv.append('pre')
     return {'argv': argv + ['x'], 'env': env, 'cwd': B, 'now': '2024-05-06T07:08:09', 'plan': {'resolve': 'all'}}
 
@@ -94,7 +102,7 @@ def command(s):
 def oracle(s, start, after, r, flts):
     B, td = _layout(s)
     E = B + '/x'
-    PRE = B + '/pre'
+    PRE = B + ('/pre/x' if s['route'] == 'home-hundred' else '/pre')
     cl = scen.classify_put(start, after, E, others=[PRE] if s.get('two') else ())
     clp = scen.classify_put(start, after, PRE, others=[E]) if s.get('two') else None
     fdesc = '+'.join('%s:%s%s' % (f['op'], f['errno'], '*' if f.get('sticky') else '') for f in flts) or 'none'
@@ -141,7 +149,7 @@ def oracle(s, start, after, r, flts):
         return viol('does-not-terminate')
     if clp is not None and clp['state'] != 'TRASHED':
         # the first argument was completely in the trash (its payload moved) before the first fault was delivered: it has to stay that way
-        moved = [t[0] for t in r.trace if t[1] in ('rename', 'replace') and cell.ok_of(t) and t[2] and t[2][0].rstrip('/').endswith('/pre')]
+        moved = [t[0] for t in r.trace if t[1] in ('rename', 'replace') and cell.ok_of(t) and t[2] and t[2][0].rstrip('/').endswith(PRE[len(B):])]
         if moved and flts and min(f['at'] for f in flts) > moved[0]:
             intact = False
             for tdx, (infos_, pays_) in scen.trash_state(after).items():
